@@ -114,6 +114,14 @@ def run(tier):
             cid = 'bom_%d' % j
             lines.append(D.case_line('load', 'json', 'v_i32', cid, doc=bom_doc.hex(), **kd))
             meta[cid] = ('json', 'v_i32', bom_doc, 'hostile-directed-partial-bom', kd, lines[-1], 'bom')
+        # documents on which the thorough tier once saw memory and stream disagree (kept as directed cases)
+        for name, arch_d, typ_d, doc_d, extra in (('ext0', 'msgpack', 'm_u8_i32', bytes.fromhex('d680'), {}), ('ext1', 'msgpack', 'v_i32', bytes.fromhex('92c7000501'), dict(mis='skip')),
+                                                  ('ext2', 'msgpack', 'r_i32', bytes.fromhex('c70005'), {}), ('setskip', 'json', 'set_i32', b'[3212121212121212121869482,2024259981]', dict(mis='skip', ovf='skip')),
+                                                  ('setskip2', 'xml', 'set_i32', b'<array><value>99999999999</value><value>5</value></array>', dict(mis='skip', ovf='skip'))):
+            for j, kd in enumerate([dict(src='mem'), dict(src='sstream'), dict(src='slow', step=1)]):
+                cid = '%s_%d' % (name, j)
+                lines.append(D.case_line('load', arch_d, typ_d, cid, doc=doc_d.hex(), **kd, **extra))
+                meta[cid] = (arch_d, typ_d, doc_d, 'hostile-directed-' + name, kd, lines[-1], name)
         by, crashes = core.run_cases(exe, lines, variant)
         for ln, key, err, rc in crashes:
             cid = core._line_id(ln)
